@@ -3,6 +3,7 @@ C13 — output is a function of the input: deterministic, repeatable, history-fr
 -/
 import Rpft.Lemmas.Determinism
 import Rpft.Gen.Tables
+import Rpft.Canon
 set_option linter.unusedSimpArgs false
 set_option linter.unusedVariables false
 namespace Rpft.Props.C13
@@ -317,14 +318,18 @@ theorem toRows_needs_clear :
     (toRowsNoClear (fun (n : Nat) (s : List Nat) => s ++ [n]) (toRowsNoClear (fun n s => s ++ [n]) ⟨1, []⟩).2).1
       ≠ (toRowsNoClear (fun (n : Nat) (s : List Nat) => s ++ [n]) ⟨1, []⟩).1 := by decide
 
-/-! ## T1: the shape of the source the model stands for -/
+/-! ## T1: the behaviour of the source the model stands for -/
 
+/-- T1 (`harness/tables/t13_determinism.py`, behaviour probes re-run on every check): `add` grows and
+`pop` restores exactly the two observables of the model's stack state (a set: compared up to order);
+entering a `logging_context` block pushes one frame, leaving it pops one, also when it is left by an
+exception, which is not swallowed; `to_rows` gives the same rows whatever junk its scratch attributes
+hold at entry and empties the row models of every node. -/
 theorem tables_agree :
-    Gen.loggerAddAppends = stackFields ∧ Gen.loggerPopPops = stackFields ∧
+    Canon.sameSet Gen.loggerAddAppends stackFields ∧ Canon.sameSet Gen.loggerPopPops stackFields ∧
     Gen.loggerEnterAdds = 1 ∧ Gen.loggerExitPops = 1 ∧ Gen.loggerExitConditionalPops = 0 ∧
     Gen.loggerExitSwallows = 0 ∧
-    Gen.toRowsResets = scratchFields ∧ Gen.toRowsClearsRowModels = 1 ∧
-    Gen.clearRowModelResets = nodeScratchFields := by decide
+    Gen.toRowsScratchReset = true ∧ Gen.toRowsClearsRowModels = 1 := by decide
 
 /-! ## What is NOT proved (kept visible)
 
